@@ -7,6 +7,7 @@
 // `for x in xs { body(x) }` are not verified).
 #![allow(unused_imports, unused_variables, dead_code, unused_mut, non_snake_case)]
 use vstd::prelude::*;
+use std::collections::{HashMap, HashSet, VecDeque};   // the std collections a change to the extracted code may reach for
 use vstd::std_specs::cmp::PartialEqSpec;
 verus! {
 broadcast use vstd::laws_eq::group_laws_eq;
